@@ -104,12 +104,14 @@ func init() {
 func init() {
 	register(&PropCheck{
 		ID: "C13", Pkgs: []string{"datacodec"}, FnRe: `^VerifC13_`, Level: "model_checking",
-		Gen: func(c *CheckCtx) error {
-			if err := genC13(c); err != nil {
-				return err
-			}
-			return genCodecHarnesses(c, "C13")
-		},
+		Gen: genC13,
 		Rule: "one harness per numeric conversion helper found in datacodec/conversions.go and per (CQL numeric codec, Go type, direction); the source value is symbolic over its whole domain; the oracle is mathematical equality in a wider bit-vector / the big.Int model",
 	})
+}
+
+func init() {
+	rule := "one harness per (codec, accepted Go type, direction) generated from the type switches of the current tree, plus hand-written harnesses for duration, float, double, boolean, decimal and the numeric forms of date/time/timestamp; the value is symbolic over its whole domain (big.Int: |v| < 2^128)"
+	register(&PropCheck{ID: "C11", Pkgs: []string{"datacodec"}, FnRe: `^VerifC11_`, Level: "model_checking", Rule: rule})
+	register(&PropCheck{ID: "C12", Pkgs: []string{"datacodec"}, FnRe: `^VerifC12_`, Level: "model_checking", Rule: rule})
+	register(&PropCheck{ID: "C14", Pkgs: []string{"datacodec"}, FnRe: `^VerifC14_`, Level: "model_checking", Rule: rule})
 }
